@@ -37,6 +37,11 @@ type Spec struct {
 	Poll             time.Duration // only icmp/sack honour it; udp/syn use the production 100 ms
 	HandshakeTimeout time.Duration
 	Ctx              context.Context
+	// Obj, when non-nil, holds the protocol object (*udp.UDPv4 / *tcp.TCPv4) across calls: the first Run stores the
+	// object it built, later Runs call Traceroute() on that same object again (library callers that keep one around)
+	Obj *any
+	// Target16: hand the IPv4 target to the constructor in its 16-byte form (what net.ParseIP returns)
+	Target16 bool
 }
 
 // Result of one run.
@@ -89,12 +94,28 @@ func Run(s Spec) Result {
 	case "icmp":
 		r.Run, r.Err = icmp.RunICMPTraceroute(ctx, icmp.Params{Target: s.Target, ParallelParams: pp})
 	case "udp":
-		u := udp.NewUDPv4(net.IP(s.Target.AsSlice()), s.Port, s.MinTTL, s.MaxTTL, s.Delay, s.Timeout, false)
-		u.LoosenICMPSrc = s.V.Relaxed
+		var u *udp.UDPv4
+		if s.Obj != nil && *s.Obj != nil {
+			u = (*s.Obj).(*udp.UDPv4)
+		} else {
+			u = udp.NewUDPv4(targetIP(s), s.Port, s.MinTTL, s.MaxTTL, s.Delay, s.Timeout, false)
+			u.LoosenICMPSrc = s.V.Relaxed
+			if s.Obj != nil {
+				*s.Obj = u
+			}
+		}
 		r.Run, r.Err = u.Traceroute()
 	case "syn":
-		t := tcp.NewTCPv4(net.IP(s.Target.AsSlice()), s.Port, s.MinTTL, s.MaxTTL, s.Delay, s.Timeout, s.V.Paris, false)
-		t.LoosenICMPSrc = s.V.Relaxed
+		var t *tcp.TCPv4
+		if s.Obj != nil && *s.Obj != nil {
+			t = (*s.Obj).(*tcp.TCPv4)
+		} else {
+			t = tcp.NewTCPv4(targetIP(s), s.Port, s.MinTTL, s.MaxTTL, s.Delay, s.Timeout, s.V.Paris, false)
+			t.LoosenICMPSrc = s.V.Relaxed
+			if s.Obj != nil {
+				*s.Obj = t
+			}
+		}
 		r.Run, r.Err = t.Traceroute()
 	case "sack":
 		hs := s.HandshakeTimeout
@@ -108,6 +129,13 @@ func Run(s Spec) Result {
 	}
 	r.End = time.Now()
 	return r
+}
+
+func targetIP(s Spec) net.IP {
+	if s.Target16 && s.Target.Is4() {
+		return net.IP(netip.AddrFrom16(s.Target.As16()).AsSlice())
+	}
+	return net.IP(s.Target.AsSlice())
 }
 
 // BuildFlow derives the flow identity from the emissions of handle h.
